@@ -145,7 +145,7 @@ export async function run() {
   const stats = { evaluations: 0, parsers: 0, maxErrors: 0, unionErrors: 0 };
   const shapes = new Set();
   const samples = [];
-  const progs = familyPrograms();
+  const progs = familyPrograms({ light: true });
   const OPTS = [
     [undefined, "default"],
     [{ disallowExtraProperties: true }, "strict"],
